@@ -539,8 +539,21 @@ func (m *Model) check(req Req, resp []byte, closed bool) (why string, class stri
 			return bad("read without open file: want close or -1, got closed=%v %s", closed, hexHead(resp))
 		}
 		if m.ro.undefined {
+			// content is unconstrained, the framing is not: either the connection ends without a byte, or one
+			// complete answer (a length and exactly that many bytes) is sent
+			what := m.ro.desc
 			if closed {
 				m.ro = nil
+				if len(resp) != 0 {
+					return bad("ordinary read on an opened %s: connection closed after %d stray bytes (%s)", what, len(resp), hexHead(resp))
+				}
+				return "", "read-undefined-closed"
+			}
+			if len(resp) < 4 {
+				return bad("ordinary read on an opened %s: %d bytes answered", what, len(resp))
+			}
+			if ann := int64(int32(be32(resp))); ann != -1 && int64(len(resp)) != 4+ann || ann == -1 && len(resp) != 4 || ann < -1 {
+				return bad("ordinary read on an opened %s announced %d bytes but %d follow", what, ann, len(resp)-4)
 			}
 			return "", "read-undefined"
 		}
@@ -583,8 +596,16 @@ func (m *Model) check(req Req, resp []byte, closed bool) (why string, class stri
 			return bad("critical read without open file: want close with no bytes, got closed=%v %s", closed, hexHead(resp))
 		}
 		if m.ro.undefined {
+			what := m.ro.desc
 			if closed {
 				m.ro = nil
+				if int64(len(resp)) >= int64(req.Limit) && req.Limit > 0 {
+					return bad("critical read on an opened %s: connection closed after a complete answer of %d bytes", what, len(resp))
+				}
+				return "", "readc-undefined-closed"
+			}
+			if int64(len(resp)) != int64(req.Limit) {
+				return bad("critical read on an opened %s: %d bytes answered for limit %d and the connection stays open", what, len(resp), req.Limit)
 			}
 			return "", "readc-undefined"
 		}
